@@ -152,7 +152,14 @@ def r1_r2(ctx):
     if set(arms) != {0, 1, 2, "other"}:
         raise AnchorError("PacketKind::decode: kind arms %s" % sorted(map(str, arms)))
     ok_sites = {}
-    for lhs, kind, payload, blk, _l in kp.defs.get(0, ()):
+    # the return place, and the locals whose value is moved into it whole (the return place of a decoding helper spliced into this body)
+    ret_locals = [0]
+    for l in ret_locals:
+        for lhs, kind, payload, blk, _l in kp.defs.get(l, ()):
+            if kind == "rv" and payload.k == "use" and payload.ops and payload.ops[0].place is not None and payload.ops[0].place.is_local() and \
+                    payload.ops[0].place.local not in ret_locals:
+                ret_locals.append(payload.ops[0].place.local)
+    for lhs, kind, payload, blk, _l in [d for l in ret_locals for d in kp.defs.get(l, ())]:
         if kind == "rv" and payload.k == "agg" and payload.j.get("variant") == "Ok" and blk in kb.live_blocks():
             v = kp.operand(payload.ops[0])
             vs = sorted(set(x[1].split("::")[-1] for x in roots(v) if x[0] == "agg" and x[1].startswith(P + "PacketKind::")))
